@@ -1,12 +1,12 @@
 package main
 
 import (
-	"runtime/debug"
-	"runtime/pprof"
-	"os/exec"
 	"flag"
 	"fmt"
 	"os"
+	"os/exec"
+	"runtime/debug"
+	"runtime/pprof"
 	"sort"
 	"strings"
 	"time"
